@@ -18,6 +18,23 @@
 (* Mirrors: the API of regclient.RegClient (TagDelete, TagList,            *)
 (* ManifestPut/Head/Get/Delete, tag.go / manifest.go) as a black box.      *)
 (*                                                                         *)
+(* The referrers fall-back tag.  Some pool manifests may name the pool     *)
+(* manifest m1 as their subject (cf.subj).  Where the client keeps the     *)
+(* referrers of a subject in a tag of the repository itself (cf.fallback = *)
+(* 1: every layout, a registry without referrers API) that tag,            *)
+(* sha256-<digest of m1>, is a tag like any other for the statement: it    *)
+(* resolves to what was last put and once removed it does not come back.   *)
+(* What is put there is the client's own doing, by its documented          *)
+(* contract: a push of a manifest with a subject adds it to the list, a    *)
+(* manifest delete that looks at the subject (on a layout always, on a     *)
+(* registry with WithManifestCheckReferrers or WithManifest) takes it out, *)
+(* the tag goes with its last entry.  refs is that list; the projection    *)
+(* (field ft of an obs event: listed, resolves, manifests listed in the    *)
+(* index it resolves to, decoded by the driver) must agree:                *)
+(* reftag-extra (gone, yet listed or resolving), reftag-missing,           *)
+(* reftag-wrong (lists other manifests than were last put).  With          *)
+(* cf.fallback = 0 nothing is demanded of that tag.                        *)
+(*                                                                         *)
 (* Two modes (header field `mode`):                                        *)
 (*   seq   one operation at a time (event `op`), the model is              *)
 (*         deterministic, the first violated obligation is latched in      *)
@@ -53,9 +70,10 @@ VARIABLES tags,   \* the reference map
           mans,   \* the reference set of stored manifests
           amb,    \* tag -> set of digests: foreign duplicate entries not yet written by the client
           pend,   \* conc mode: operation id -> record of a called, not yet returned operation
-          cf,     \* header: [mode, backend, alist, adel]
+          refs,   \* the manifests the referrers fall-back tag of the pool's subject lists (see below)
+          cf,     \* header: [mode, backend, alist, adel, fallback, withman, subj]
           bad     \* seq mode: first violated obligation
-pvars == <<tags, mans, amb, pend, cf, bad>>
+pvars == <<tags, mans, amb, pend, refs, cf, bad>>
 
 Get(f, k) == f[k]
 Put(f, k, v) == [x \in DOMAIN f \cup {k} |-> IF x = k THEN v ELSE f[x]]
@@ -71,17 +89,20 @@ Amb == {t \in Tags : amb[t] # {}}
 Listed == MListed(tags)
 
 PInit == /\ tags = [t \in Tags |-> NONE] /\ mans = {} /\ amb = [t \in Tags |-> {}]
-         /\ pend = <<>> /\ cf = [mode |-> "seq", backend |-> "reg", alist |-> 1, adel |-> 1]
+         /\ pend = <<>> /\ refs = {}
+         /\ cf = [mode |-> "seq", backend |-> "reg", alist |-> 1, adel |-> 1, fallback |-> 0, withman |-> 0, subj |-> {}]
          /\ bad = ""
 
 \* header: the abstraction of the initial content (computed by the driver from what it put
 \* there itself: nothing for a fresh back end, the entries of a foreign index)
-PReset(mode, backend, alist, adel, tags0, amb0, mans0) ==
+PReset(mode, backend, alist, adel, tags0, amb0, mans0, fallback, withman, subj) ==
   /\ tags' = [t \in Tags |-> tags0[t]]
   /\ mans' = ToSet(mans0)
   /\ amb' = [t \in Tags |-> ToSet(amb0[t])]
   /\ pend' = <<>>
-  /\ cf' = [mode |-> mode, backend |-> backend, alist |-> alist, adel |-> adel]
+  /\ refs' = {}
+  /\ cf' = [mode |-> mode, backend |-> backend, alist |-> alist, adel |-> adel, fallback |-> fallback,
+            withman |-> withman, subj |-> ToSet(subj)]
   /\ bad' = ""
 
 ----------------------------------------------------------------------------
@@ -128,6 +149,21 @@ RawIdxBad(valid, ent, files) ==
   ELSE IF ToSet(files) # mans THEN "files"
   ELSE ""
 
+\* the referrers list after operation k on manifest m took effect (done: it succeeded; pres: the map had
+\* the manifest)
+NewRefs(k, m, done, pres) ==
+  IF cf.fallback = 0 \/ ~done \/ m \notin cf.subj THEN refs
+  ELSE IF k \in {"push", "pushd"} THEN refs \cup {m}
+  ELSE IF k \in {"mdel", "mdelr"} /\ pres /\ (cf.backend = "layout" \/ k = "mdelr" \/ cf.withman = 1) THEN refs \ {m}
+  ELSE refs
+\* ft: [listed |-> 0/1, res |-> "-" | "ok" | "x...", refs |-> pool manifests the index lists]
+RefTagBad(ft) ==
+  IF cf.fallback = 0 THEN ""
+  ELSE IF refs = {} /\ (ft.listed = 1 \/ ft.res # NONE) THEN "reftag-extra"
+  ELSE IF refs # {} /\ (ft.listed = 0 \/ ft.res = NONE) THEN "reftag-missing"
+  ELSE IF refs # {} /\ (ft.res # "ok" \/ ToSet(ft.refs) # refs) THEN "reftag-wrong"
+  ELSE ""
+
 \* what head / get of one reference must report
 AnsOK(ref, v) == IF ref \in Amb THEN v \in amb[ref] \cup {NONE} ELSE v = MResolve(tags, mans, ref)
 
@@ -145,8 +181,9 @@ POp(k, t, m, res, lst) ==
           /\ tags' = IF done THEN MTags(tags, k, t, m) ELSE tags
           /\ mans' = IF done THEN MMans(mans, k, m) ELSE mans
           /\ amb' = IF done /\ k \in {"push", "tagdel"} THEN [amb EXCEPT ![t] = {}] ELSE amb
+          /\ refs' = NewRefs(k, m, done, pres)
           /\ bad' = Flag(~done /\ pres /\ ~unsure, "refused-" \o k)
-     ELSE /\ UNCHANGED <<tags, mans, amb>>
+     ELSE /\ UNCHANGED <<tags, mans, amb, refs>>
           /\ bad' = IF k = "list" THEN Latch(<<ListBad(lst)>>)
                     ELSE LET ref == IF t # "" THEN t ELSE m
                              want == MResolve(tags, mans, ref) IN
@@ -156,25 +193,25 @@ POp(k, t, m, res, lst) ==
                                     ELSE IF res = NONE THEN "-result-missing" ELSE "-result-wrong"))
   /\ UNCHANGED <<pend, cf>>
 
-PObs(lst, head, get) ==
+PObs(lst, head, get, ft) ==
   /\ pend = <<>>
   /\ IF cf.mode = "seq"
-     THEN bad' = Latch(<<ListBad(lst), ResBad("head", head), ResBad("get", get)>>)
-     ELSE /\ ListBad(lst) = "" /\ ResBad("head", head) = "" /\ ResBad("get", get) = ""
+     THEN bad' = Latch(<<ListBad(lst), ResBad("head", head), ResBad("get", get), RefTagBad(ft)>>)
+     ELSE /\ ListBad(lst) = "" /\ ResBad("head", head) = "" /\ ResBad("get", get) = "" /\ RefTagBad(ft) = ""
           /\ UNCHANGED bad
-  /\ UNCHANGED <<tags, mans, amb, pend, cf>>
+  /\ UNCHANGED <<tags, mans, amb, pend, refs, cf>>
 
 PRawReg(rt, xt, rm) ==
   /\ pend = <<>>
   /\ IF cf.mode = "seq" THEN bad' = Latch(<<RawRegBad(rt, xt, rm)>>)
      ELSE RawRegBad(rt, xt, rm) = "" /\ UNCHANGED bad
-  /\ UNCHANGED <<tags, mans, amb, pend, cf>>
+  /\ UNCHANGED <<tags, mans, amb, pend, refs, cf>>
 
 PRawIdx(valid, ent, files) ==
   /\ pend = <<>>
   /\ IF cf.mode = "seq" THEN bad' = Latch(<<RawIdxBad(valid, ent, files)>>)
      ELSE RawIdxBad(valid, ent, files) = "" /\ UNCHANGED bad
-  /\ UNCHANGED <<tags, mans, amb, pend, cf>>
+  /\ UNCHANGED <<tags, mans, amb, pend, refs, cf>>
 
 ----------------------------------------------------------------------------
 (* conc mode: call / linearise / return *)
@@ -206,7 +243,7 @@ PCall(id, k, t, m) ==
                                            THEN [pend[j] EXCEPT !.len = TRUE] ELSE pend[j]]
                ELSE pend IN
      pend' = Put(p1, id, rec)
-  /\ UNCHANGED <<tags, mans, amb, cf, bad>>
+  /\ UNCHANGED <<tags, mans, amb, refs, cf, bad>>
 
 \* silent: the map-changing operation id takes effect now
 PLin(id) ==
@@ -220,6 +257,8 @@ PLin(id) ==
          unsure == o.k = "tagdel" /\ o.t \in Amb
          ex == IF MPresent(tags, mans, o.k, o.t, o.m) /\ ~unsure THEN "ok" ELSE "any" IN
      /\ tags' = nt /\ mans' = nm /\ amb' = na
+     \* (an operation that fails in the end is linearised where the map has no target: pres = FALSE)
+     /\ refs' = NewRefs(o.k, o.m, TRUE, MPresent(tags, mans, o.k, o.t, o.m))
      \* every read in flight has now seen one more state of the map
      /\ pend' = [j \in DOMAIN pend |->
                    IF j = id THEN [o EXCEPT !.st = "lin", !.exp = ex]
@@ -244,7 +283,7 @@ PRet(id, res, lst) ==
                   ELSE \E L \in o.seenL : L \ Amb = S \ Amb
           ELSE res \in o.seen \/ "any" \in o.seen \/ (o.len /\ res = "x")
   /\ pend' = Del(pend, id)
-  /\ UNCHANGED <<tags, mans, amb, cf, bad>>
+  /\ UNCHANGED <<tags, mans, amb, refs, cf, bad>>
 
 PNote == UNCHANGED pvars
 
